@@ -6,21 +6,12 @@
 //!   elfmon list
 #![allow(clippy::all)]
 
-pub mod codec;
-pub mod corpus;
-pub mod ctx;
-pub mod gen;
-pub mod monitor;
-#[cfg(feature = "full")]
-pub mod observe;
-pub mod props;
-pub mod reference;
-pub mod rng;
-pub mod walk;
 
-use ctx::{Ctx, Tier};
-use monitor::panic::{guard, PanicKind};
-use rng::{fnv64, Rng};
+use elfmon::ctx::{Ctx, Tier};
+use elfmon::monitor::panic::{guard, PanicKind};
+use elfmon::rng::{fnv64, Rng};
+use elfmon::{monitor, props};
+
 
 #[global_allocator]
 static GLOBAL: monitor::alloc::CountingAlloc = monitor::alloc::CountingAlloc;
@@ -174,29 +165,25 @@ fn cmd_list() -> i32 {
     0
 }
 
-/// Write generator inputs as seed corpus files for libFuzzer.
+/// Write generator inputs as seed corpus files for a libFuzzer target.
 #[cfg(feature = "full")]
 fn cmd_emit_corpus(args: &[String]) -> i32 {
     let dir = args.get(0).cloned().unwrap_or_default();
     let seed: u64 = arg_val(args, "--seed").and_then(|s| s.parse().ok()).unwrap_or(1);
     let count: u64 = arg_val(args, "--count").and_then(|s| s.parse().ok()).unwrap_or(300);
-    for i in 0..count {
-        let mut rng = Rng::from_parts(&[seed, 0xf0221, i]);
-        let input = corpus::gen_input(&mut rng, i % corpus::KINDS, i % 3 == 0);
-        if input.bytes.len() > 8192 {
-            continue;
-        }
-        if std::fs::write(format!("{dir}/seed-{i:05}"), &input.bytes).is_err() {
+    let target = arg_val(args, "--target").unwrap_or("walker".into());
+    for (i, b) in elfmon::fuzz::seed_inputs(&target, seed, count).iter().enumerate() {
+        if std::fs::write(format!("{dir}/seed-{i:05}"), b).is_err() {
             return 2;
         }
     }
     0
 }
 
-/// Classify one libFuzzer artifact with the monitors of C01 (crate panic) or C16 (budget, item bound).
+/// Re-judge one libFuzzer artifact with the oracle of its target; prints `FUZZ-VIOLATION <prop> <sig> <detail>`.
 #[cfg(feature = "full")]
 fn cmd_fuzzcase(args: &[String]) -> i32 {
-    let pid = args.get(0).cloned().unwrap_or_default();
+    let target = args.get(0).cloned().unwrap_or_default();
     let path = args.get(1).cloned().unwrap_or_default();
     let data = match std::fs::read(&path) {
         Ok(d) => d,
@@ -206,32 +193,26 @@ fn cmd_fuzzcase(args: &[String]) -> i32 {
         }
     };
     monitor::panic::install();
-    let mut found = 0;
-    // the fuzz target derives its salt from the input; try that salt first and a few others
-    let n = data.len() as u64;
-    let fsalt = n.wrapping_mul(0x9E37_79B9_7F4A_7C15) ^ data.first().copied().unwrap_or(0) as u64;
-    for salt in [fsalt, 0, 1, 2, 3] {
-        if pid == "C16" {
-            let mut ctx = Ctx::new("C16", Tier::Quick, 1, 0, 1);
-            ctx.set_input(&data);
-            props::c16::walk_one(&mut ctx, &data, "libFuzzer artifact", salt, 256);
-            for v in &ctx.violations {
-                println!("FUZZ-VIOLATION C16 {} {}", v.sig, v.detail.replace('\n', " "));
-                found += 1;
+    let r = guard(|| elfmon::fuzz::fuzz_one(&target, &data));
+    match r {
+        Ok(v) => {
+            for (prop, sig, detail) in &v {
+                println!("FUZZ-VIOLATION {prop} {sig} {detail}");
             }
-        } else {
-            let mut ctx = Ctx::new("C01", Tier::Quick, 1, 0, 1);
-            props::c01::walk_all_specs(&mut ctx, &data, "libFuzzer artifact", salt, 256);
-            for v in &ctx.violations {
-                println!("FUZZ-VIOLATION C01 {} {}", v.sig, v.detail.replace('\n', " "));
-                found += 1;
-            }
+            if v.is_empty() { 0 } else { 1 }
         }
-        if found > 0 {
-            break;
+        Err(p) => {
+            // a panic that escaped the oracle's own guards: attribute it like run_one does
+            if p.kind == PanicKind::Crate {
+                let prop = match target.as_str() { "walker" => "C01", "decode" => "C02", "tostr" => "C19", "notes" => "C14", "strtab" => "C15", "stream" => "C08", "ranges" => "C03", _ => "C05" };
+                println!("FUZZ-VIOLATION {prop} {} panic escaped a monitored call: {} at {}:{}", p.sig(), p.msg, p.file, p.line);
+                1
+            } else {
+                eprintln!("harness panic while replaying: {} at {}:{}", p.msg, p.file, p.line);
+                2
+            }
         }
     }
-    if found > 0 { 1 } else { 0 }
 }
 
 fn main() {
